@@ -586,6 +586,15 @@ var c01dCorpus = []string{
 	"var b;function f(){var d=0;b=1}f();g(b)",
 	"for(;b;){let a=8;g(a);b=0}var a;var b;g(a)",
 	"function a(){var name,z;g(z);try{}catch(name){var name}}a()",
+	// the inputs of the repaired findings K-C01D-4, 6, 7 and their variants
+	"function f(){var d=0;b=1}f();var b;g(b)",
+	"function f(){b=1;var d=0;g(d)}f();var b;g(b)",
+	"function f(){b=1;for(var d=0;d<1;d++);}f();var b;g(b)",
+	"if(a)for(;b;b=0){if(c)for(;d;d=0)g(1);var e}else g(2);var z=1",
+	"if(a)for(;b;b=0){if(c)for(;d;d=0)g(1);{}}else g(2)",
+	"if(a)for(;b;b=0){if(c)for(;d;d=0)g(1);{let y=1}}else g(2)",
+	"if(b){for(var i=0;i<2;i++){if(g(a))for(;j<2;j++){a=b;c++}else var d,b,d}}else{d=h(c=d,a||c)}",
+	"{let b=0;var longname2=2;g(b)}var longname1=1;b=7;for(;c;c=0){var b}",
 }
 
 func c01dReplayInput(path string) string {
@@ -622,14 +631,18 @@ func c01dKnownReplays(c *Ctx) error {
 	}
 	var metas []meta
 	for _, k := range h.Known("C01D") {
-		if k.Status != "open" {
+		if k.Status != "open" && k.Status != "fixed" {
 			continue
 		}
 		src := k.ReplayStr("src")
 		keep, _ := k.Replay["keep"].(bool)
 		out, err, crash := c01dReal(src, keep)
 		if err != nil || crash != "" {
-			c.R.AddKnown(k.ID, true, k.What, fmt.Sprint(err, crash))
+			if k.Status == "open" {
+				c.R.AddKnown(k.ID, true, k.What, fmt.Sprint(err, crash))
+			} else {
+				c.R.Add(h.Finding{Stage: "known", Kind: "crash", What: "regression input of the repaired finding " + k.ID + ": " + fmt.Sprint(err, crash), Input: src})
+			}
 			continue
 		}
 		for seed := 0; seed < 3; seed++ {
@@ -651,11 +664,24 @@ func c01dKnownReplays(c *Ctx) error {
 			obs[id] = metas[i].out + "  => " + r.Why
 		}
 	}
+	st := c.R.StartStage("fixed-regression", "the exact inputs of the repaired findings (status fixed in meta/C01D.known.json): input vs real output under node, 3 host worlds; they must agree")
+	defer st.End()
 	seen := map[string]bool{}
 	for _, m := range metas {
 		if !seen[m.k.ID] {
 			seen[m.k.ID] = true
-			c.R.AddKnown(m.k.ID, still[m.k.ID], m.k.What, obs[m.k.ID])
+			if m.k.Status == "open" {
+				c.R.AddKnown(m.k.ID, still[m.k.ID], m.k.What, obs[m.k.ID])
+				continue
+			}
+			st.Count(m.k.ID+" "+m.k.ReplayStr("src"), true)
+			if still[m.k.ID] {
+				cfg := "renaming"
+				if keep, _ := m.k.Replay["keep"].(bool); keep {
+					cfg = "KeepVarNames"
+				}
+				c.R.Add(h.Finding{Stage: "fixed-regression", Kind: "fail", What: "the repaired finding " + m.k.ID + " is back", Input: m.k.ReplayStr("src"), Config: cfg, Impl: obs[m.k.ID], Seed: c.Seed})
+			}
 		}
 	}
 	return nil
